@@ -16,7 +16,8 @@ From T38 Require Import Base.Bytes Base.SMap Model.Field Model.Object Model.Glob
 (* One-step simulation: from a well-formed state, a command line answers exactly what the plain
    map answers and leaves a state whose abstraction is the plain map's new state. Covers every
    modelled command: SET FSET DEL PDEL DROP RENAME RENAMENX FLUSHDB EXPIRE PERSIST JSET JDEL
-   GET FGET EXISTS FEXISTS TTL TYPE KEYS SCAN JGET, with the gate errors and every ">> Args" error. *)
+   GET FGET EXISTS FEXISTS TTL TYPE KEYS SCAN (CURSOR LIMIT MATCH ASC DESC NOFIELDS IDS OBJECTS COUNT) JGET,
+   with the gate errors and every ">> Args" error. *)
 Theorem c01_step_refines : forall O e s args s' r log,
   inv s -> cmd_ok O e args -> exec O true e s args = Done s' r log ->
   sexec_cmd O e (abs s) args = (abs s', r) /\ inv s'.
@@ -25,7 +26,8 @@ Print Assumptions c01_step_refines.
 
 (* Whole programs from the empty database: no panic, same replies, same final visible state.
    _partial: [prog_ok] excludes PDEL / KEYS patterns whose literal prefix ends in byte 0xFF
-   (open finding C12-ff of glob.Parse); nothing else is excluded. *)
+   (open finding C12-ff of glob.Parse) and SCAN cursors >= 2^63 (open finding C01-scan-count-cursor);
+   nothing else is excluded. *)
 Theorem c01_refines_partial : forall O p, prog_ok O p ->
   exists sf rs, run O true [] p = Some (sf, rs) /\ srun O [] p = (abs sf, rs) /\ inv sf.
 Proof. exact run_refines_init. Qed.
@@ -36,6 +38,15 @@ Theorem c01_refines_ff_refuted :
   exists sf rs, run toy_oracle true [] ff_prog = Some (sf, rs) /\ snd (srun toy_oracle [] ff_prog) <> rs.
 Proof. exact refines_ff_refuted. Qed.
 Print Assumptions c01_refines_ff_refuted.
+
+(* ... nor can the cursor bound: SCAN key CURSOR 18446744073709551615 COUNT on one object answers 2 *)
+Theorem c01_scan_count_cursor_refuted :
+  exists s, run toy_oracle true [] f1_prog_prefix = Some (s, [ROk str_OK]) /\
+    let q := QScan w_k 18446744073709551615 0 [] false OUT_COUNT false in
+    run_req toy_oracle true (toy_env 6) s q = Some (s, RInt 2, false) /\
+    sexec toy_oracle matchesb (toy_env 6) (abs s) q = (abs s, RInt 0, false).
+Proof. exact scan_count_cursor_refuted. Qed.
+Print Assumptions c01_scan_count_cursor_refuted.
 
 (* An error or a negative answer (nil, 0) changes nothing and logs nothing — every command, every
    argument list, no side condition on patterns. *)
